@@ -954,7 +954,7 @@ def closure_paths(prog: Program, outer: FuncInfo, name: str) -> tuple[FuncInfo, 
     return fi, PathEnumerator(prog, fi, outer_env=closure_env(prog, outer)).paths()
 
 
-def splice_helpers(prog: Program, paths: list[Path], _depth: int = 0) -> list[Path]:
+def splice_helpers(prog: Program, paths: list[Path], _depth: int = 0, cls=None) -> list[Path]:
     """Paths with calls to private, undecorated, multi-statement module-level helpers of the package replaced by the
     helper's own paths: the helper's events (parameters bound to the arguments) precede the caller's, and the call term
     is replaced by the value the helper returns.  Moving a block of statements into such a helper is then invisible to
@@ -978,6 +978,12 @@ def splice_helpers(prog: Program, paths: list[Path], _depth: int = 0) -> list[Pa
                     if fi is not None and nm.startswith("_") and not nm.startswith("__") and not fi.node.decorator_list and not any(a[0] == "star" for a in x[2]):
                         call = (x, fi)
                         break
+                # ... and, for the methods of `cls`, its own private undecorated methods called on self
+                if cls is not None and x[0] == "call" and x[1][0] == "attr" and x[1][1] == ("param", "self") and x[1][2].startswith("_") and not x[1][2].startswith("__"):
+                    fi = cls.methods.get(x[1][2])
+                    if fi is not None and not fi.node.decorator_list and not any(a[0] == "star" for a in x[2]) and fi.params[:1] == ["self"]:
+                        call = (x, fi)
+                        break
             if call:
                 break
         if call is None:
@@ -985,7 +991,7 @@ def splice_helpers(prog: Program, paths: list[Path], _depth: int = 0) -> list[Pa
             continue
         x, fi = call
         names = fi.params
-        sigma = dict(zip(names, x[2]))
+        sigma = dict(zip(names, ((("param", "self"),) + tuple(x[2])) if (x[1][0] == "attr" and fi.cls is not None) else x[2]))
         sigma.update({k: v for k, v in x[3] if k})
         if any(n not in sigma for n in names):
             out.append(p)
@@ -1028,7 +1034,7 @@ def splice_helpers(prog: Program, paths: list[Path], _depth: int = 0) -> list[Pa
                 continue
             evs = [e for e in evs if not (e[0] == "guard" and e[1][0] == "const")]
             out.append(Path(evs, exit_, dict(p.env)))
-    return splice_helpers(prog, out, _depth + 1) if changed else out
+    return splice_helpers(prog, out, _depth + 1, cls) if changed else out
 
 
 def block_paths(prog: Program, func: FuncInfo, stmts: list, params: list[str], tag: str) -> list[Path]:
